@@ -444,7 +444,7 @@ func C17(c *core.Ctx) {
 				}
 				c.Decide(hasDefault, "R17.2", "register-default:"+field, c.Pos(ci), field+" defaults to "+what+": "+core.LeafSet(ls), "rib/register does not default "+field+" to "+what+" when the parameter is absent: "+core.LeafSet(ls))
 			}
-			chk("FaceID", func(l core.Leaf) bool { return l.Val == ssa.Value(reg.Params[3]) }, "the requesting face")
+			chk("FaceID", func(l core.Leaf) bool { return core.Same(l.Val, reg.Params[3]) }, "the requesting face")
 			chk("Origin", func(l core.Leaf) bool { k, ok := core.ConstInt(l.Val); return ok && k == 0 }, "application origin (0)")
 			chk("Cost", func(l core.Leaf) bool { k, ok := core.ConstInt(l.Val); return ok && k == 0 }, "0")
 			chk("Flags", func(l core.Leaf) bool { k, ok := core.ConstInt(l.Val); return ok && k == 1 }, "child-inherit (1)")
